@@ -121,7 +121,10 @@ func (x *exec) term(v *Val) string {
 	if v.L != nil && v.L.K == LObj {
 		return v.L.Ref
 	}
-	if v.Clo != nil || v.Typ != nil && isFuncType(v.Typ) {
+	if v.Clo != nil {
+		return x.cloTerm(v)
+	}
+	if v.Typ != nil && isFuncType(v.Typ) {
 		v.T = x.c.FreshConst("fn", "Int")
 		return v.T
 	}
